@@ -200,10 +200,11 @@ def gen_pred(rng, db, depth, pool, style):
     return ["not", gen_pred(rng, db, depth - 1, pool, style)]
 
 
-def make_pool(rng, db):
+def make_pool(rng, db, maxlen=3):
+    # the query objects re-render their SQL recursively: cost grows exponentially with path depth
     existing = []
     for f in db:
-        existing += all_paths(f["inst"])
+        existing += [e for e in all_paths(f["inst"]) if len(e[0]) <= maxlen]
     pool = []
     k = rng.randint(2, 5)
     for _ in range(k):
@@ -257,7 +258,7 @@ def gen_cases(ctx):
         for_order = rng.random() < 0.5
         db = gen_db(rng, thorough, for_order=for_order)
         for j in range(per_db):
-            pool = make_pool(rng, db)
+            pool = make_pool(rng, db, 4 if thorough and rng.random() < 0.3 else 3)
             style = "tame" if rng.random() < 0.6 else "free"
             depth = rng.choice([0, 1, 1, 2, 2, 3, 3, 4] + ([5] if thorough else []))
             pred = gen_pred(rng, db, depth, pool, style)
@@ -573,7 +574,7 @@ def run(ctx):
     # implementation, in parallel chunks (cases of one database stay together)
     chunks, cur = [], []
     for c in cases:
-        if cur and (len(cur) >= 48 and c["db"] is not cur[-1]["db"]):
+        if cur and (len(cur) >= 24 and c["db"] is not cur[-1]["db"]):
             chunks.append(cur)
             cur = []
         cur.append(c)
